@@ -3,7 +3,9 @@
 NAME=$1; shift
 cd /verif
 git -C /repo diff --quiet || { echo "/repo is dirty"; exit 2; }
-git -C /repo apply /verif/seeded/$NAME/patch.diff || { echo "PATCH DOES NOT APPLY: $NAME"; exit 2; }
+PATCH=/verif/seeded/$NAME/patch.diff
+[ -f /verif/seeded/$NAME/patch.rebased.diff ] && PATCH=/verif/seeded/$NAME/patch.rebased.diff
+git -C /repo apply $PATCH || { echo "PATCH DOES NOT APPLY: $NAME"; exit 2; }
 trap 'git -C /repo checkout -- .' EXIT
 RES=""
 for P in "$@"; do
